@@ -24,7 +24,10 @@ for ID in $IDS; do
       if ( cd $VERIF_REPO && env -u GOSUMDB -u GOPROXY GOTOOLCHAIN=auto GOFLAGS=-mod=mod go test -overlay $tmp/ov.json -vet=off -count=1 $pk ) > $tmp/tests.log 2>&1; then tests="repo-tests-pass"; else tests="REPO-TESTS-FAIL"; fi
     fi
     out=$(VERIF_WORK=$tmp/work VERIF_EVIDENCE_DIR=$tmp/ev VERIF_EXTRA_OVERLAY=$tmp ./check.sh $ID $TIER 2>&1); rc=$?
-    if [ $rc = 1 ] && echo "$out" | grep -q "^VIOLATION property=$ID"; then
+    if [[ $name == *.equiv ]]; then
+      # negative control: a behaviour change under which the property still HOLDS must not raise an alarm
+      if [ $rc = 0 ]; then pass=$((pass+1)); res="QUIET(as required: property-preserving change)"; else fail=$((fail+1)); res="FALSE-ALARM(rc=$rc)"; fi
+    elif [ $rc = 1 ] && echo "$out" | grep -q "^VIOLATION property=$ID"; then
       pass=$((pass+1)); res=CAUGHT
     else
       fail=$((fail+1)); res="MISSED(rc=$rc)"
